@@ -24,7 +24,9 @@ package transport
 
 // updateReferences (property C39): a reference is created only when it does
 // not exist, and updated or deleted only when its current value equals the
-// old value the client sent.
+// old value the client sent; and a reference is only ever set to an object
+// that is stored in the repository (git receive-pack update(): "unpack should
+// have generated ...").
 //gvc:func updateReferences
 //gvc:  props C39
 //gvc:  theory int
@@ -34,6 +36,7 @@ package transport
 //gvc:  loop 1 invariant nn: firstErr != nil
 //gvc:  sink SetReference requires cas: ite(forall(k, 0, 32, cmd.Old.hash[k] == 0), st.#refs[strid(cmd.Name)] == 0, st.#refs[strid(cmd.Name)] != 0 && forall(k, 0, 32, field(st.#refs[strid(cmd.Name)], "plumbing.Reference.h").hash[k] == cmd.Old.hash[k]))
 //gvc:  sink SetReference requires name: strid(ref.n) == strid(cmd.Name) && ref.h == cmd.New
+//gvc:  sink SetReference requires present: st.#has[keyid(cmd.New)]
 //gvc:  sink setStatus requires reported: arg3 == nil ==> ite(forall(k, 0, 32, cmd.New.hash[k] == 0), st.#refs[strid(cmd.Name)] == 0, st.#refs[strid(cmd.Name)] != 0 && field(st.#refs[strid(cmd.Name)], "plumbing.Reference.h") == cmd.New)
 //gvc:  sink RemoveReference requires cas: st.#refs[strid(cmd.Name)] != 0 && forall(k, 0, 32, field(st.#refs[strid(cmd.Name)], "plumbing.Reference.h").hash[k] == cmd.Old.hash[k])
 //gvc:end
